@@ -238,7 +238,7 @@ Definition create_table (w : world) (nid : nat) (target : Entity) (for_storage :
   | None => (w, 0)
   | Some nd =>
       if node_has_rel nd then
-        match stdpp.list.last (n_free nd) with
+        match last (n_free nd) with
         | Some tid =>
             let w1 := w <| w_tables := alter (fun t => t <| t_target := target |> <| t_active := true |>) tid (w_tables w) |> in
             let nd' := nd <| n_free := take (length (n_free nd) - 1) (n_free nd) |>
